@@ -290,12 +290,17 @@ Section Typed.
         destruct IH as [(_ & Hc & _) _]. destruct (wt_arg_comparable ext a Hw) as [Hwc Hnu].
         destruct (Hc Hwc) as (Oa & _ & Aa & Fa).
         split; [|split; reflexivity]. apply (OK_func1 tname_length a GValue GValue); auto.
-      - destruct (ustr_eqb name tname_count || ustr_eqb name tname_value) eqn:HC; [|discriminate Hw].
+      - destruct (ustr_eqb name tname_count || ustr_eqb name tname_value) eqn:HC.
+        { destruct args as [|a [|b r]]; try discriminate Hw. destruct IH as [(_ & _ & Hn & _) _].
+          destruct (Hn Hw) as (Oa & Aa & Fa).
+          apply orb_true_iff in HC as [HC|HC]; apply ustr_eqb_spec in HC; subst name.
+          + split; [|split; reflexivity]. apply (OK_func1 tname_count a GNodes GValue); auto.
+          + split; [|split; reflexivity]. apply (OK_func1 tname_value a GNodes GValue); auto. }
+        destruct (ext && ustr_eqb name tname_typeof) eqn:HT; [|discriminate Hw].
+        apply andb_true_iff in HT as [_ HT]. apply ustr_eqb_spec in HT. subst name.
         destruct args as [|a [|b r]]; try discriminate Hw. destruct IH as [(_ & _ & Hn & _) _].
         destruct (Hn Hw) as (Oa & Aa & Fa).
-        apply orb_true_iff in HC as [HC|HC]; apply ustr_eqb_spec in HC; subst name.
-        + split; [|split; reflexivity]. apply (OK_func1 tname_count a GNodes GValue); auto.
-        + split; [|split; reflexivity]. apply (OK_func1 tname_value a GNodes GValue); auto. }
+        split; [|split; reflexivity]. apply (OK_func1 tname_typeof a GNodes GValue); auto. }
     split; [|split; [|split]].
     - (* match, search *)
       intros Hw. rewrite wt_logical_func in Hw. apply andb_true_iff in Hw as [Hname Hw].
